@@ -27,10 +27,10 @@ import (
 	"github.com/dappledger/AnnChain/gemmill/consensus/pbft"
 	crypto "github.com/dappledger/AnnChain/gemmill/go-crypto"
 	"github.com/dappledger/AnnChain/gemmill/go-hash"
+	"github.com/dappledger/AnnChain/gemmill/mempool"
 	dbm "github.com/dappledger/AnnChain/gemmill/modules/go-db"
 	"github.com/dappledger/AnnChain/gemmill/modules/go-events"
 	glog "github.com/dappledger/AnnChain/gemmill/modules/go-log"
-	"github.com/dappledger/AnnChain/gemmill/mempool"
 	"github.com/dappledger/AnnChain/gemmill/p2p"
 	sm "github.com/dappledger/AnnChain/gemmill/state"
 	"github.com/dappledger/AnnChain/gemmill/types"
